@@ -11,13 +11,15 @@ pub mod tl;
 
 /// capacities compiled per kind (indices into this list are what `Case::cap` selects)
 pub fn caps_for_kind(kind: u8) -> &'static [usize] {
-    match kind % 6 {
+    match kind % case::NKINDS {
         0 => &case::CAPS,
         1 => &case::CAPS,
         2 => &[0, 1, 2, 3, 4, 6],
         3 => &[0, 1, 2, 4],
         4 => &[0, 1],
-        _ => &[0, 1, 3],
+        5 => &[0, 1, 3],
+        6 => &[0, 1, 2, 3, 4, 6],
+        _ => &[0, 1, 2],
     }
 }
 
